@@ -14,8 +14,7 @@ RULE = ('[also: a wrapper on OpticalMap.getSequence end to end requires every ve
         'up to length 8 (quick) / 12 (thorough), radius 0-3; toRelativeGenomicPositions for resolutions 1-11 (quick), '
         'plus 100/700/1400/1500 (thorough), three starts, every coordinate of five bins; (b) random label lists with '
         'float coordinates, large resolutions; random peak lists for PeaksSelector.selectPeaks (ties included); (c) '
-        'end to end: wrappers on find_peaks / getInitialAlignment / selectPeaks recompute every primary peak\'s score '
-        '(height - RMS of the non-zero correlation samples) and require the peaks kept per correlation to be its '
+        'end to end: wrappers on find_peaks / getInitialAlignment / selectPeaks take every primary peak (heights from find_peaks, scores as the code assigns them; they must be monotone in height within a correlation) and require the peaks kept per correlation to be its '
         'peaksCount highest and the selected seeds to be the peaksCount highest-scoring of all, in descending order. '
         'Non-trivial = vector with >= 1 set bit / selection that had to truncate; enumerated cases distinct by construction.')
 ASSUMPTIONS = ['bits beyond `end` are checked for exactness when emitted but their presence is not required',
@@ -257,13 +256,15 @@ def judge_e2e(case, wd, sh):
                         sh.count('e2e-correlations-truncated')
                     if len(kept) != len(exp) or not np.allclose(kept, exp, equal_nan=True):
                         sh.violation('per-correlation-peaks-not-the-highest', 'kept heights %s, the %d highest of %d are %s' % (kept[:8], pc, len(h), exp[:8]), slim())
-                    # the peaks that survive per correlation, with the score the code is supposed to give them
-                    top = sorted(map(float, h), reverse=True)[:pc]
-                    lst.append([x - rms for x in top])
-                    for p in out.peaks:
-                        if not (abs(p.score - (p.height - rms)) < 1e-9 or (p.score != p.score)):
-                            sh.violation('peak-score-not-height-minus-noise', 'peak score %s, height %s, rms %s' % (p.score, p.height, rms), slim())
-                            break
+                    # Within one correlation the score must rank the peaks as their heights do (whatever the noise term is);
+                    # the kept peaks - verified above to be the pc highest - enter the query-wide ranking with the score the
+                    # code gave them, so the oracle does not depend on how the score is defined.
+                    ks = sorted(out.peaks, key=lambda p: -p.height)
+                    if any(a.score < b.score - 1e-12 for a, b in zip(ks, ks[1:])):
+                        sh.violation('peak-score-not-monotone-in-height', 'scores %s for heights %s' % ([p.score for p in ks][:6], [p.height for p in ks][:6]), slim())
+                    lst.append([float(p.score) for p in out.peaks])
+                    if any(abs(p.score - (p.height - rms)) > 1e-9 for p in out.peaks if p.score == p.score):
+                        sh.count('peak-score-differs-from-height-minus-rms(informational)')
                 else:
                     lst.append([])
             except Exception:
